@@ -56,12 +56,42 @@ pub async fn run_case(backend: &str, seed: u64, rep: &mut Report) -> anyhow::Res
     std::fs::create_dir_all(&srcdir)?;
     let (default, extra) = { let mut a = w.devices[0].lock().await; let d = *a.default_folder().await.unwrap().id(); let e = *a.create_folder(NewFolderOptions::new("files".into())).await?.folder.id(); (d, e) };
     let mut extra_alive = true;
-    let n_ops = rng.range(4, if rep.tier == "thorough" { 9 } else { 6 });
+    // secrets of another kind that carry their file as an attachment field
+    let mut attached: BTreeSet<(VaultId, SecretId)> = BTreeSet::new();
+    let n_ops = rng.range(5, if rep.tier == "thorough" { 10 } else { 8 });
     for step in 0..n_ops {
         let keys: Vec<(VaultId, SecretId)> = contents.keys().cloned().collect();
-        let kind = rng.below(10);
+        let kind = rng.below(13);
         let mut a = w.devices[0].lock().await;
-        if kind < 4 || keys.is_empty() {
+        if kind >= 10 && (kind < 11 || attached.is_empty()) {
+            // a secret of another kind (a note) that carries a file as an attachment field
+            let body: Vec<u8> = (0..rng.range(1, 2000)).map(|_| rng.below(256) as u8).collect();
+            let path = srcdir.join(format!("a{step}.bin")); std::fs::write(&path, &body)?;
+            let att: Secret = path.clone().try_into()?;
+            let att_meta = SecretMeta::new(format!("attachment{step}"), att.kind());
+            let mut note = Secret::Note { text: format!("note {step}").into(), user_data: Default::default() };
+            note.add_field(sos_vault::secret::SecretRow::new(SecretId::new_v4(), att_meta, att));
+            let folder = if extra_alive && rng.chance(1, 3) { extra } else { default };
+            match a.create_secret(SecretMeta::new(format!("note-with-attachment{step}"), note.kind()), note, AccessOptions { folder: Some(folder), ..Default::default() }).await {
+                Ok(ch) => { contents.insert((folder, ch.id), body); attached.insert((folder, ch.id)); script.push(format!("create note with an attachment in {}", if folder == default { "default" } else { "extra" })); rep.count("op:note-with-attachment"); }
+                Err(e) => rep.spec_fail("c17-create-file-secret-error", json!({"case_seed": seed}), &e.to_string()),
+            }
+        } else if kind >= 11 {
+            // detach: an update that only removes the attachment field
+            let (f, s) = *rng.pick(&attached.iter().cloned().collect::<Vec<_>>());
+            match a.read_secret(&s, Some(&f)).await {
+                Ok((row, _)) => {
+                    let mut secret = row.secret().clone();
+                    let ids: Vec<SecretId> = secret.user_data().fields().iter().map(|r| *r.id()).collect();
+                    for id in ids { secret.remove_field(&id); }
+                    match a.update_secret(&s, row.meta().clone(), Some(secret), AccessOptions { folder: Some(f), ..Default::default() }).await {
+                        Ok(_) => { contents.remove(&(f, s)); attached.remove(&(f, s)); script.push("detach the attachment".into()); rep.count("op:detach-attachment"); }
+                        Err(e) => rep.spec_fail("c17-update-file-error", json!({"case_seed": seed, "script": script}), &e.to_string()),
+                    }
+                }
+                Err(e) => rep.spec_fail("c17-update-file-error", json!({"case_seed": seed, "script": script}), &e.to_string()),
+            }
+        } else if kind < 4 || keys.is_empty() {
             let body: Vec<u8> = (0..rng.range(1, 2000)).map(|_| rng.below(256) as u8).collect();
             let path = srcdir.join(format!("f{step}.bin")); std::fs::write(&path, &body)?;
             let secret: Secret = path.clone().try_into()?;
@@ -70,8 +100,9 @@ pub async fn run_case(backend: &str, seed: u64, rep: &mut Report) -> anyhow::Res
                 Ok(ch) => { contents.insert((folder, ch.id), body); script.push(format!("create file secret in {}", if folder == default { "default" } else { "extra" })); }
                 Err(e) => rep.spec_fail("c17-create-file-secret-error", json!({"case_seed": seed}), &e.to_string()),
             }
-        } else if kind < 6 {
-            let (f, s) = *rng.pick(&keys);
+        } else if kind < 6 && keys.iter().any(|k| !attached.contains(k)) {
+            let plain: Vec<(VaultId, SecretId)> = keys.iter().filter(|k| !attached.contains(k)).cloned().collect();
+            let (f, s) = *rng.pick(&plain);
             let body: Vec<u8> = (0..rng.range(1, 2000)).map(|_| rng.below(256) as u8).collect();
             let path = srcdir.join(format!("u{step}.bin")); std::fs::write(&path, &body)?;
             let meta = SecretMeta::new(format!("file-upd{step}"), sos_vault::secret::SecretType::File);
@@ -83,18 +114,18 @@ pub async fn run_case(backend: &str, seed: u64, rep: &mut Report) -> anyhow::Res
             let (f, s) = *rng.pick(&keys);
             let dest = if f == default { extra } else { default };
             match a.move_secret(&s, &f, &dest, Default::default()).await {
-                Ok(mv) => { if let Some(b) = contents.remove(&(f, s)) { contents.insert((dest, mv.id), b); } script.push("move file secret".into()); }
+                Ok(mv) => { if let Some(b) = contents.remove(&(f, s)) { contents.insert((dest, mv.id), b); } if attached.remove(&(f, s)) { attached.insert((dest, mv.id)); } script.push("move file secret".into()); }
                 Err(e) => rep.spec_fail("c17-move-file-secret-error", json!({"case_seed": seed, "script": script}), &e.to_string()),
             }
         } else if kind < 9 {
             let (f, s) = *rng.pick(&keys);
             match a.delete_secret(&s, AccessOptions { folder: Some(f), ..Default::default() }).await {
-                Ok(_) => { contents.remove(&(f, s)); script.push("delete file secret".into()); }
+                Ok(_) => { contents.remove(&(f, s)); attached.remove(&(f, s)); script.push("delete file secret".into()); }
                 Err(e) => rep.spec_fail("c17-delete-file-secret-error", json!({"case_seed": seed, "script": script}), &e.to_string()),
             }
         } else if extra_alive {
             match a.delete_folder(&extra).await {
-                Ok(_) => { contents.retain(|k, _| k.0 != extra); extra_alive = false; script.push("delete folder".into()); }
+                Ok(_) => { contents.retain(|k, _| k.0 != extra); attached.retain(|k| k.0 != extra); extra_alive = false; script.push("delete folder".into()); }
                 Err(e) => rep.spec_fail("c17-delete-folder-error", json!({"case_seed": seed, "script": script}), &e.to_string()),
             }
         }
@@ -205,13 +236,16 @@ pub async fn upload_cases(rep: &mut Report, rng: &mut Rng, n: usize) -> anyhow::
 /// after the first device deletes (or moves) the secret and everybody synced, the blobs on every replica must be exactly
 /// the files named by replaying the file event log.
 pub async fn transfer_case(rep: &mut Report, seed: u64, action: &str) -> anyhow::Result<()> {
-    use crate::auth::start_server;
+    use crate::auth::start_server_backend;
     use sos_backend::BackendTarget;
     use sos_core::{crypto::AccessKey, Origin, Paths};
     use sos_net::{pairing::{AcceptPairing, OfferPairing}, NetworkAccount};
     use sos_protocol::AccountSync;
     use sos_sync::StorageEventLogs;
-    let live = start_server(None).await?;
+    // "delete-folder-db": the server keeps its accounts in the database backend
+    let server_db = action.ends_with("-db");
+    let action = action.trim_end_matches("-db");
+    let live = start_server_backend(None, server_db).await?;
     let url: url::Url = format!("http://{}:{}", live.addr.ip(), live.addr.port()).parse()?;
     let origin = Origin::new("verif".to_string(), url.clone());
     let base = std::path::Path::new("/verif/run/tmp");
@@ -266,7 +300,7 @@ pub async fn transfer_case(rep: &mut Report, seed: u64, action: &str) -> anyhow:
     if action != "enroll-later" {
         let secret: sos_vault::secret::Secret = src.clone().try_into()?;
         let meta = sos_vault::secret::SecretMeta::new("transferred".into(), secret.kind());
-        made_id = Some(owner.create_secret(meta, secret, AccessOptions { folder: Some(default), ..Default::default() }).await?.id);
+        made_id = Some(owner.create_secret(meta, secret, AccessOptions { folder: Some(if action == "delete-folder" { other } else { default }), ..Default::default() }).await?.id);
         if let Some(e) = owner.sync().await.first_error() { anyhow::bail!("owner sync: {e}"); }
         let uploaded = wait_for(|| !blobs_under(&server_dir).is_empty(), 30).await;
         rep.count(&format!("transfer:{action}:uploaded:{uploaded}"));
@@ -289,6 +323,7 @@ pub async fn transfer_case(rep: &mut Report, seed: u64, action: &str) -> anyhow:
     // the action on the first device
     match action {
         "delete" => { owner.delete_secret(&made, AccessOptions { folder: Some(default), ..Default::default() }).await?; }
+        "delete-folder" => { owner.delete_folder(&other).await?; }
         _ => { owner.move_secret(&made, &default, &other, Default::default()).await?; }
     }
     for _ in 0..2 {
@@ -327,7 +362,7 @@ pub fn run(cli: &Cli) {
     let property = cli.extra.get("property").cloned().unwrap_or("C17".into());
     let mut rep = Report::new(&property, "files", cli.seed, &cli.tier);
     let rt = tokio::runtime::Builder::new_multi_thread().worker_threads(4).enable_all().build().unwrap();
-    let n: u64 = cli.extra.get("cases").and_then(|s| s.parse().ok()).unwrap_or(if cli.tier == "thorough" { 20 } else { 2 });
+    let n: u64 = cli.extra.get("cases").and_then(|s| s.parse().ok()).unwrap_or(if cli.tier == "thorough" { 20 } else { 5 });
     for backend in ["fs", "db"] {
         for k in 0..n {
             let case_seed = cli.seed.wrapping_mul(1_000_003).wrapping_add(k);
@@ -342,7 +377,7 @@ pub fn run(cli: &Cli) {
         rep.spec_fail("c17-harness-aborted", json!({"part": "upload"}), &e.to_string());
     }
     // two network devices and a live server: delete / move on one device, blobs everywhere after the transfers settled
-    for (k, action) in ["delete", "move", "enroll-later"].into_iter().enumerate() {
+    for (k, action) in ["delete", "move", "enroll-later", "delete-folder", "delete-folder-db", "delete-db"].into_iter().enumerate() {
         for j in 0..(if cli.tier == "thorough" { 3 } else { 1 }) {
             if let Err(e) = rt.block_on(transfer_case(&mut rep, cli.seed.wrapping_mul(1_000_003).wrapping_add(700 + 10 * k as u64 + j), action)) {
                 rep.notes.push(format!("transfer case {action} aborted: {e}"));
